@@ -88,7 +88,12 @@ def trace_b(frame, event, arg):
     return None
 
 
+def trace_c(frame, event, arg):
+    return None
+
+
 PRE = [None, trace_a, trace_b]
+APP_SETS = [(trace_c, None), (None, trace_c), (trace_b, trace_a)]     # what the application installs while the agent is stopped
 
 
 class Env:
@@ -161,11 +166,11 @@ class Env:
 def lifecycle(o1: int, o2: int, o3: int, o4: int, n: int, sys0: int, thr0: int, no_trace: bool, poll_fails: bool,
               pmask: int, flush_fails: bool, stop_fails: bool, fail_base: bool) -> str:
     """
-    Histories of up to 4 start / shutdown calls with pre-existing sys and threading trace functions, tracing enabled or
+    Histories of up to 4 start / shutdown calls (and the application replacing the trace hooks while the agent is stopped) with pre-existing sys and threading trace functions, tracing enabled or
     disabled, and any subset of {poll failing, delivery flush failing, timer stop failing, plugin k's shutdown failing}
     (failing with Exception or a BaseException): hooks installed once and restored exactly (untouched when disabled),
     every shutdown step performed once whatever fails, started flag truthful.
-    PRE: 0 <= o1 <= 1 and 0 <= o2 <= 1 and 0 <= o3 <= 1 and 0 <= o4 <= 1 and 1 <= n <= 4
+    PRE: 0 <= o1 <= 4 and 0 <= o2 <= 4 and 0 <= o3 <= 4 and 0 <= o4 <= 4 and 1 <= n <= 4
     PRE: 0 <= sys0 <= 2 and 0 <= thr0 <= 2 and 0 <= pmask <= 7 and not fail_base
     PRE: n >= 4 or o4 == 0
     PRE: n >= 3 or o3 == 0
@@ -183,6 +188,8 @@ def lifecycle(o1: int, o2: int, o3: int, o4: int, n: int, sys0: int, thr0: int, 
         saved = None
         exp_sys, exp_thr = PRE[sys0], PRE[thr0]
         n_shutdowns = 0
+        if 0 in ops:
+            ops = list(ops) + [1]       # every history ends with a shutdown (a no-op when already stopped)
         for op in ops:
             if op == 0:     # start
                 try:
@@ -198,6 +205,13 @@ def lifecycle(o1: int, o2: int, o3: int, o4: int, n: int, sys0: int, thr0: int, 
                         exp_sys = exp_thr = d.trigger_handler.trace_call
                 if not d.started:
                     return "C14:started-flag-false-after-start"
+            elif op >= 2:   # the APPLICATION changes the process trace hooks (only while the agent is stopped)
+                if started:
+                    continue
+                a_sys, a_thr = APP_SETS[op - 2]
+                env.fsys.cur, env.fthr.cur = a_sys, a_thr
+                exp_sys, exp_thr = a_sys, a_thr
+                continue
             else:           # shutdown
                 try:
                     d.shutdown()
@@ -236,6 +250,7 @@ def lifecycle(o1: int, o2: int, o3: int, o4: int, n: int, sys0: int, thr0: int, 
         n_starts_effective = n_shutdowns + (1 if started else 0)
         if not no_trace:
             installs = [f for f in env.fsys.sets if f == d.trigger_handler.trace_call]
+            n_starts_effective = sum(1 for _ in installs) if False else n_starts_effective
             if len(installs) != n_starts_effective:
                 return "C14:hooks-installed-more-than-once-per-start"
     finally:
@@ -289,11 +304,13 @@ _FAIL = ["not poll_fails and pmask == 0 and not flush_fails and not stop_fails a
          "pmask == 7 and not flush_fails and stop_fails"]
 CONDITIONS = [
     dict(fn="lifecycle",
-         cubes={"quick": ["n == %d and (%s) and sys0 == %d" % (n, f, s) for n in (2, 3) for f in _FAIL for s in range(3)],
-                "thorough": ["n == %d and pmask == %d and sys0 == %d and thr0 == %d" % (n, m, s, t) for n in (3, 4) for m in range(8) for s in range(3) for t in range(3)]},
-         twins=["reach@n == 2 and (%s) and sys0 == 1" % _FAIL[0], "mutant:skip_threading_restore@n == 2 and (%s) and sys0 == 1" % _FAIL[0],
-                "mutant:restart_installs_again@n == 2 and (%s) and sys0 == 1" % _FAIL[0], "mutant:shutdown_unguarded@n == 2 and (%s) and sys0 == 1" % _FAIL[1]],
-         bounds="histories of 2-3 (thorough 3-4) start/shutdown calls; pre-existing sys and threading trace functions each in {None, A, B}; NO_TRACE on/off; "
+         cubes={"quick": ["n == %d and (%s) and sys0 == %d and o1 <= 1 and o2 <= 1 and o3 <= 1" % (n, f, s) for n in (2, 3) for f in _FAIL for s in range(3)] +
+                         ["n == 4 and (%s) and sys0 == %d and thr0 == 2 and not no_trace and o1 == 0 and o2 == 1 and o3 == %d and o4 <= 1" % (_FAIL[0], s, o) for s in range(3) for o in (2, 3, 4)] +
+                         ["n == 4 and (%s) and sys0 == 1 and thr0 == 2 and o1 == %d and o2 == 0 and o3 == 1 and o4 <= 1" % (_FAIL[0], o) for o in (2, 3, 4)],
+                "thorough": ["n == %d and pmask == %d and sys0 == %d and thr0 == %d and o1 == %d" % (n, m, s, t, o) for n in (3, 4) for m in range(8) for s in range(3) for t in range(3) for o in range(5)]},
+         twins=["reach@n == 2 and (%s) and sys0 == 1 and o1 <= 1 and o2 <= 1 and o3 <= 1" % _FAIL[0], "mutant:skip_threading_restore@n == 2 and (%s) and sys0 == 1 and o1 <= 1 and o2 <= 1 and o3 <= 1" % _FAIL[0],
+                "mutant:restart_installs_again@n == 2 and (%s) and sys0 == 1 and o1 <= 1 and o2 <= 1 and o3 <= 1" % _FAIL[0], "mutant:shutdown_unguarded@n == 2 and (%s) and sys0 == 1 and o1 <= 1 and o2 <= 1 and o3 <= 1" % _FAIL[1]],
+         bounds="histories of 2-3 (thorough 3-4) start/shutdown calls, plus 4-operation histories in which the application replaces the hooks between two cycles; pre-existing sys and threading trace functions each in {None, A, B}; NO_TRACE on/off; "
                 "failure subsets over {poll, flush, timer stop, 3 plugin shutdowns} (quick: 5 representative subsets; thorough: all plugin masks x all others), "
                 "failing with Exception or KeyboardInterrupt"),
 ]
